@@ -775,6 +775,68 @@ def primary_cases():
                 out.append(("P|prim=%s|cont=%s|ctx=%s" % (pn, cn, xn), {"src": src, "tl": 20, "prim": pn, "cont": cn, "ctx": xn}))
     return out
 
+
+
+# ---------------------------------------------------------------------------------------------
+# trees of nested blocks (the parser handles runs of `{` iteratively): every leaf logs its number, so the expected log is
+# 1..n in order whatever the nesting; a tree is rendered in several enclosing positions
+
+def _block_trees(depth, width):
+    """All ordered trees: a node is a tuple of children, () is an empty block, None is a leaf statement."""
+    if depth == 0:
+        return [None, ()]
+    sub = _block_trees(depth - 1, width)
+    out = [None, ()]
+    import itertools
+    for n in range(1, width + 1):
+        for combo in itertools.product(sub, repeat=n):
+            out.append(tuple(combo))
+    return out
+
+
+def _render_blocks(t, counter, sep):
+    if t is None:
+        counter[0] += 1
+        return "__out(%d)%s" % (counter[0], sep)
+    return "{ " + " ".join(_render_blocks(c, counter, sep) for c in t) + " }"
+
+
+BLOCK_PLACES = {
+    "program": "%s", "function-body": "function f() { %s } f();", "if-branch": "if (true) %s else { __out(-1) }", "else-branch": "if (false) { __out(-1) } else %s",
+    "loop-body": "for (var i = 0; i < 1; i++) %s", "while-body": "var w = 0; while (w++ < 1) %s", "labelled": "L: %s", "try-block": "try %s finally { }",
+    "catch-block": "try { throw 1 } catch (e) %s", "finally-block": "try { } finally %s", "switch-case": "switch (1) { case 1: %s }",
+    "arrow-body": "var a = () => %s; a();", "callback-body": "[0].forEach(function () %s);", "after-object-literal": "var o = {a: {b: {}}}; %s",
+    "do-body": "do %s while (false);", "for-in-body": "for (var k in {p: 1}) %s",
+}
+
+
+def run_blocks(p):
+    e = engine()
+    oc = e.run_program(p["src"], tl=50)
+    log = oc.rpartition("|")[0]
+    want = ";".join(e.ser(float(i)) for i in range(1, p["n"] + 1))
+    tail_ = oc.rpartition("|")[2]
+    obs = log if tail_[:1] == "R" else log + "|" + tail_
+    return obs + "\x00" + want
+
+
+def block_cases():
+    out = []
+    trees = [t for t in _block_trees(2, 3) if t is not None]
+    for pn, tmpl in BLOCK_PLACES.items():
+        needs_block = pn in ("function-body", "try-block", "catch-block", "finally-block", "arrow-body", "callback-body")
+        for sep in (";", ""):
+            for t in trees:
+                c = [0]
+                body = _render_blocks(t, c, sep)
+                if sep == "" and ") __out" in body:
+                    continue        # two statements on one line without a separator: the engine's tolerance is not judged
+                if needs_block and not isinstance(t, tuple):
+                    continue
+                src = tmpl % (body[1:-1] if pn == "function-body" else body)
+                out.append(("B|place=%s|sep=%r|%s" % (pn, sep, body), {"src": src, "n": c[0]}))
+    return out
+
 # =============================================================================================
 # spaces
 
@@ -823,6 +885,11 @@ def core_spaces():
                          "delimited positions (array element, argument, property value, parenthesis runs, ...); expected = V8 "
                          "(value, or SyntaxError for the invalid combinations)" % (len(PRIMARIES), len(CONTS), len(PCTX)),
                     bound="%d x %d x %d" % (len(PRIMARIES), len(CONTS), len(PCTX)), batch=400, agree=agree_primary))
+    sp.append(Space("c13_blocks", "mc.props.c13:run_blocks", block_cases, oracle="inline", batch=300,
+                    rule="every ordered tree of nested blocks of depth <= 2 and width <= 3 (empty blocks included), leaves numbered in "
+                         "source order, in %d enclosing positions (program, function body, branches, loop bodies, labelled, try / catch / "
+                         "finally blocks, switch case, arrow and callback bodies), with and without `;` after the leaves: the log must be "
+                         "1..n" % len(BLOCK_PLACES), bound="trees x %d places x 2" % len(BLOCK_PLACES)))
     sp.append(Space("c13_reject_delete", RUN, reject_delete_cases, oracle="table",
                     rule="each closing ) ] }, closing quote, last */ and regex terminator deleted in turn from ~570 valid programs; "
                          "V8 reports an early SyntaxError for every case", bound="programs x closers", batch=400))
@@ -1077,6 +1144,10 @@ def signature(sp, cid, payload, exp, obs):
         k = mismatch_kind(exp, obs)
         form = p.get("form", "?")
         return "literal|%s|%s" % (form, k), "literal form %s (e.g. `%s`): %s" % (form, eg, k)
+    if name == "c13_blocks":
+        place = cid.split("|")[1]
+        return "blocks|%s|%s" % (place, "syntax" if obs.endswith("Esyntax") else "order"), (
+            "nested blocks in position %s: %s (e.g. %s)" % (place, "rejected" if obs.endswith("Esyntax") else "statements run in the wrong order or number", eg))
     if name == "c13_primary_ctx":
         if tail(exp) == "Esyntax" and tail(obs) != "Esyntax":
             k = "accepted where V8 reports a SyntaxError"
